@@ -16,7 +16,7 @@ closures; the adequacy of a comparison (that it compares with the right bound); 
 """
 import facts as F
 from cfg import CFG
-from flow import Flow, last_seg
+from flow import Flow, last_seg, arg_local
 import census
 from recursion import resolver_returns_no_reference
 
@@ -77,7 +77,35 @@ def rule_guard(ctx, f):
                             if cb is not None and any(last_seg(F.callee_name(tt)) == "pop" for _, tt in F.calls(cb)):
                                 guards.append(st[1][0])
         drops = [(i, bb["term"]) for i, bb in enumerate(b["blocks"]) if bb["term"]["k"] == "drop" and not bb.get("cleanup") and bb["term"]["place"] and bb["term"]["place"][0] in guards]
-        okp = bool(guards) and bool(drops) and not any(cfg.can_reach(d, x) for d, _ in drops for x in load)
+        # an explicit `drop(guard)` moves the guard into mem::drop: that call is where the key is popped
+        gcopies = set(guards)
+        for _ in range(3):
+            for i_, j_, st_ in F.stmts(b):
+                if st_[0] == "assign" and len(st_[1]) == 1 and st_[2][0] == "use" and F.op_local(st_[2][1]) in gcopies:
+                    gcopies.add(st_[1][0])
+        drops += [(bi_, t_) for bi_, t_ in F.calls(b) if last_seg(F.callee_name(t_)) == "drop" and "mem" in F.callee_name(t_) and t_["args"] and F.op_local(t_["args"][0]) in gcopies
+                  and not b["blocks"][bi_].get("cleanup")]
+        # (every load: the cached one and the re-loads for the requested type in the arms that follow it)
+        reloads = [bi for bi, t in F.calls(b) if t.get("callee") in ("object::Object::from_primitive", "object::Resolve::resolve", "object::Resolve::resolve_flags") or
+                   (last_seg(F.callee_name(t)) == "and_then" and any(a_[0] == "agg" and a_[1].get("k") == "closure" and f.bodies.get(a_[1].get("closure")) is not None and
+                                                                     any(t3.get("callee") == "object::Object::from_primitive" for _, t3 in F.calls(f.bodies[a_[1]["closure"]]))
+                                                                     for a_ in Flow(b).origins(F.op_local(t["args"][1])) if len(t["args"]) > 1 and F.op_local(t["args"][1]) is not None))]
+        okp = bool(guards) and bool(drops) and not any(cfg.can_reach(d, x) for d, _ in drops for x in load + reloads)
+        gfl = Flow(b)
+        for lb in load:
+            kt = b["blocks"][lb]["term"]
+            kl = arg_local(kt, 1) if len(kt["args"]) > 1 else None
+            ats = gfl.origins(kl, passthrough=("get_inner", "get_ref")) if kl is not None else []
+            # ... the very value the `contains` test looked at (the same variable), not one rebuilt from its parts
+            tested = set()
+            for cbi, ct in cont:
+                tl = arg_local(ct, 1)
+                tested |= {a_[2] for a_ in gfl.origins(tl, passthrough=("get_inner", "get_ref")) if a_[0] == "call"} if tl is not None else set()
+            same = kl is not None and not any(a_[0] in ("agg", "const") for a_ in ats) and \
+                {a_[2] for a_ in ats if a_[0] == "call"} == tested and bool(tested)
+            ctx.check(same, "C14-GUARD", "%s#same-key" % b["id"], "the cache is asked for another key than the one the chain was tested for (a key rebuilt from parts, e.g. without "
+                      "the generation): a reference to the same object under another generation passes the guard and re-enters the cache entry that is being computed - the load "
+                      "never returns", kt["span"], detail="get_or_compute(key, ..) with the key of the guard")
         ctx.check(okp, "C14-GUARD", "%s#pop-after-load" % b["id"], "the object that pops the key off the chain is %s: while the load runs the chain does not contain the key, so "
                   "neither the recursion test nor the depth limit can stop a cycle" % ("dropped before the load (`let _ = ..` drops at once)" if guards and drops else "not found"),
                   b["span"], detail="guard object dropped only after the cached load")
